@@ -181,6 +181,7 @@ func (p *instancePool) warmUpGun(ctx context.Context) error {
 }
 
 type poolAsyncRunHandle struct {
+	poolCtx             context.Context // Pool Run context. Done only when nobody reads await errors anymore.
 	runCtx              context.Context
 	runCancel           context.CancelFunc
 	instanceStartCtx    context.Context
@@ -194,6 +195,7 @@ type poolAsyncRunHandle struct {
 }
 
 func (p *instancePool) runAsync(runCtx context.Context) (*poolAsyncRunHandle, error) {
+	poolCtx := runCtx
 	// Canceled in case all instances finish, fail or run runCancel.
 	runCtx, runCancel := context.WithCancel(runCtx)
 	_ = runCancel
@@ -225,6 +227,7 @@ func (p *instancePool) runAsync(runCtx context.Context) (*poolAsyncRunHandle, er
 		startRes <- startResult{started, err}
 	}()
 	return &poolAsyncRunHandle{
+		poolCtx:             poolCtx,
 		runCtx:              runCtx,
 		runCancel:           runCancel,
 		instanceStartCtx:    instanceStartCtx,
@@ -322,8 +325,8 @@ func (ah *runAwaitHandle) awaitRun() {
 func (ah *runAwaitHandle) onErrAwaited(err error) {
 	select {
 	case ah.awaitErr <- err:
-	case <-ah.runCtx.Done():
-		if err != ah.runCtx.Err() {
+	case <-ah.poolCtx.Done(): // Not runCtx: awaitRun cancels it itself when all instances finish.
+		if err != ah.poolCtx.Err() {
 			ah.log.Debug("Error suppressed after run cancel", zap.Error(err))
 		}
 	}
